@@ -346,6 +346,66 @@ theorem run_transition_of_range (ph : Phys) (hv : ph.Valid) (inp : Inputs ℝ) (
   exact step_trichotomy ph hv inp.p hc hdt (j == kCN) j T sj i v hvi
     (fun _ => vial_trichotomy_admissible ph hv _ h0 h1)
 
+/-- **every recorded transition of a process that starts at or below the liquidus is one of the
+three transitions — NOTHING monitored**: composition of `run_transition_of_range` with
+`C06.run_bounds_below_liquidus` (which supplies `0 ≤ σ < 1` in every column from the stability range
+and the static inequality `StaticSide` alone). Same conclusion as `run_trichotomy_partial`, without
+its per-step side condition `hside`. -/
+theorem run_trichotomy_below_liquidus {ph : Phys} (inp : Inputs ℝ) (kCN : Nat)
+    (hwf : Snow.C05.WF inp.oc inp.p.dt)
+    (st : Snow.C06.Stable ph inp.p inp.nVials inp.oc.stop ph.TeqL)
+    (hstat : Snow.C06.StaticSide ph inp.p inp.nVials inp.oc.stop)
+    (hT0 : inp.oc.start ≤ inp.T0) (hT0hi : inp.T0 ≤ ph.TeqL) (hstart : inp.oc.start ≤ ph.TeqL) :
+    ∀ (j : Nat) (sj : State ℝ) (T : ℝ), (runWith inp kCN).traj[j]? = some sj →
+      (runWith inp kCN).Tshelf[j]? = some T →
+      (j + 1 < (runWith inp kCN).traj.size →
+        (runWith inp kCN).traj[j + 1]? = some (step inp.p kCN j T sj)) ∧
+      (j + 1 = (runWith inp kCN).traj.size → (runWith inp kCN).final = step inp.p kCN j T sj) ∧
+      ∀ (i : Nat) (v : Vial ℝ), sj.vials[i]? = some v →
+        ∃ v', (step inp.p kCN j T sj).vials[i]? = some v' ∧
+          IsTransition ph inp.p (j == kCN) j T sj i v v' := by
+  intro j sj T hj hT
+  have hb := Snow.C06.run_bounds_below_liquidus inp kCN hwf st hstat hT0 hT0hi hstart j sj hj
+  have h0 := fun i v hvi => run_transition_of_range ph st.valid inp st.consts (ne_of_gt st.dt_pos)
+    kCN j sj T hj hT i v hvi (hb i v hvi).1.1 (hb i v hvi).1.2
+  have hrs := run_steps inp kCN
+  simp only at hrs
+  refine ⟨fun h => hrs.2.2.2.1 j sj T hj hT h, ?_, fun i v hvi => (h0 i v hvi).2.2⟩
+  intro h
+  have hpos : 0 < (runWith inp kCN).traj.size := by omega
+  have e : (runWith inp kCN).traj.size - 1 = j := by omega
+  have := hrs.2.2.2.2 sj T (by rw [e]; exact hj) (by rw [e]; exact hT) hpos
+  rw [e] at this; exact this
+
+/-- **every recorded transition of thermally uncoupled vials (`k_int·A = 0`) is one of the three
+transitions — NOTHING monitored**: composition of `run_transition_of_range` with
+`C06.run_bounds_uncoupled`; any start temperature inside the stability range. -/
+theorem run_trichotomy_uncoupled {ph : Phys} (inp : Inputs ℝ) (kCN : Nat) (hi : ℝ)
+    (hwf : Snow.C05.WF inp.oc inp.p.dt)
+    (st : Snow.C06.Stable ph inp.p inp.nVials inp.oc.stop hi)
+    (hk : inp.p.kInt * inp.p.A = 0)
+    (hT0 : inp.oc.start ≤ inp.T0) (hT0hi : inp.T0 ≤ hi) (hstart : inp.oc.start ≤ hi) :
+    ∀ (j : Nat) (sj : State ℝ) (T : ℝ), (runWith inp kCN).traj[j]? = some sj →
+      (runWith inp kCN).Tshelf[j]? = some T →
+      (j + 1 < (runWith inp kCN).traj.size →
+        (runWith inp kCN).traj[j + 1]? = some (step inp.p kCN j T sj)) ∧
+      (j + 1 = (runWith inp kCN).traj.size → (runWith inp kCN).final = step inp.p kCN j T sj) ∧
+      ∀ (i : Nat) (v : Vial ℝ), sj.vials[i]? = some v →
+        ∃ v', (step inp.p kCN j T sj).vials[i]? = some v' ∧
+          IsTransition ph inp.p (j == kCN) j T sj i v v' := by
+  intro j sj T hj hT
+  have hb := Snow.C06.run_bounds_uncoupled inp kCN hi hwf st hk hT0 hT0hi hstart j sj hj
+  have h0 := fun i v hvi => run_transition_of_range ph st.valid inp st.consts (ne_of_gt st.dt_pos)
+    kCN j sj T hj hT i v hvi (hb i v hvi).1.1 (hb i v hvi).1.2
+  have hrs := run_steps inp kCN
+  simp only at hrs
+  refine ⟨fun h => hrs.2.2.2.1 j sj T hj hT h, ?_, fun i v hvi => (h0 i v hvi).2.2⟩
+  intro h
+  have hpos : 0 < (runWith inp kCN).traj.size := by omega
+  have e : (runWith inp kCN).traj.size - 1 = j := by omega
+  have := hrs.2.2.2.2 sj T (by rw [e]; exact hj) (by rw [e]; exact hT) hpos
+  rw [e] at this; exact this
+
 /-- **a run on a declared shape uses the geometric heat flow**: when the parameters of the run
 are built by `Params.withShape` (which is what the driver does for the `arr`/`shape` the user
 configured, `Ops/Flake.lean`), then in every step of the run the new value of vial `i` is
@@ -416,5 +476,24 @@ theorem nonvacuous_run :
   have hsz : 1 + 1 < (runWith xInp 0).traj.size := by
     rw [← Array.length_toList, x_traj]; simp
   exact ⟨hr.2.2 0 xV1 (by simp [xS]), hr.1 hsz⟩
+
+/-- **`run_trichotomy_uncoupled` applied to a run with ice** (the same concrete run: one vial,
+`k_int = 0`): its hypotheses are satisfiable and its conclusion is the solidification transition
+from column 1 to column 2 — with no per-step side condition supplied. -/
+theorem nonvacuous_uncoupled :
+    (∃ v', (step Snow.FlakeExRun.xParams 0 1 (-5) (Snow.FlakeExRun.xS Snow.FlakeExRun.xV1)).vials[0]? = some v' ∧
+      IsTransition Snow.FlakeExRun.xPhys Snow.FlakeExRun.xParams (1 == 0) 1 (-5)
+        (Snow.FlakeExRun.xS Snow.FlakeExRun.xV1) 0 Snow.FlakeExRun.xV1 v') := by
+  open Snow.FlakeExRun in
+  have h := Snow.C06.nonvacuous_run
+  have h0 : xInp.oc.start ≤ xInp.T0 := by simp only [xInp]; norm_num
+  have h1 : xInp.T0 ≤ -1 := by simp only [xInp]; norm_num
+  have h2 : xInp.oc.start ≤ -1 := by simp [xInp]
+  have hk : xInp.p.kInt * xInp.p.A = 0 := by simp [xInp, xParams]
+  have hc1 : (runWith xInp 0).traj[1]? = some (xS xV1) := by
+    rw [← Array.getElem?_toList, x_traj]; rfl
+  have hT1 : (runWith xInp 0).Tshelf[1]? = some (-5 : ℝ) := by rw [x_Tshelf]; rfl
+  have hr := run_trichotomy_uncoupled xInp 0 (-1) h.1 h.2.1 hk h0 h1 h2 1 (xS xV1) (-5) hc1 hT1
+  exact hr.2.2 0 xV1 (by simp [xS])
 
 end Snow.C01
